@@ -343,3 +343,24 @@ MUTANTS += [
     dict(id='c03-gradient-ravel-order', props=['C03'], file=CORE,
          old="        result = super(Gradient, self).__call__(np.atleast_1d(x).ravel(), *args, **kwds)", new="        result = super(Gradient, self).__call__(np.atleast_1d(x).ravel(order='F'), *args, **kwds)"),
 ]
+
+MUTANTS += [
+    dict(id='c04-central-even-offdiag-sign', props=['C04'], file=FD,
+         old="                              - f(x - e_i + e_j) + f(x - e_i - e_j)) / (4. * hess[j, i])", new="                              - f(x - e_i + e_j) - f(x - e_i - e_j)) / (4. * hess[j, i])"),
+    dict(id='c04-forward-no-mirror', props=['C04'], file=FD,
+         old="                hess[i, j] = (f(x + eee[i, :] + eee[j, :]) - g[i] - g[j] + f_x) / hess[j, i]\n                hess[j, i] = hess[i, j]",
+         new="                hess[i, j] = (f(x + eee[i, :] + eee[j, :]) - g[i] - g[j] + f_x) / hess[j, i]\n                hess[j, i] = hess[i, j] * (1 + 1e-15)"),
+    dict(id='c04-central2-denominator', props=['C04'], file=FD,
+         old="                              - f_xme[i] - f_xme[j] + f_x) / (2 * hess[j, i])", new="                              - f_xme[i] - f_xme[j] + f_x) / (2 * hess[j, i]) * (1 + 1e-7 * (i != j))"),
+    dict(id='c04-undo-f2', props=['C04'], file=CORE,
+         old="            if np.shape(f_x) == (1,):  # a length-1 array is the value of a scalar function\n                f_x = f_x[0]\n", new=""),
+    dict(id='c04-hessdiag-central-even-half', props=['C04'], file=FD,
+         old="        partials = [(f(x + hi) + f(x - hi)) / 2.0 - f_x for hi in increments]\n        return np.array(partials)\n\n    @staticmethod\n    def _backward(f, f_x, x, h):\n        n = len(x)\n        increments = np.identity(n) * h\n        partials = [f_x - f(x - hi) for hi in increments]",
+         new="        partials = [(f(x + hi) + f(x - hi)) / 2.0 - f_x * (1 + 1e-12) for hi in increments]\n        return np.array(partials)\n\n    @staticmethod\n    def _backward(f, f_x, x, h):\n        n = len(x)\n        increments = np.identity(n) * h\n        partials = [f_x - f(x - hi) for hi in increments]"),
+    dict(id='c04-complex-even-factor', props=['C04'], file=FD,
+         old="        hess = 2. * np.outer(h, h)\n", new="        hess = 2. * np.outer(h, h) * (1 + 1e-6)\n"),
+    dict(id='c04-multicomplex2-wrong-pair', props=['C04'], file=FD,
+         old="                zph = Bicomplex(x + 1j * eee[i, :], eee[j, :])", new="                zph = Bicomplex(x + 1j * eee[i, :], eee[j if j < 3 else i, :])"),
+    dict(id='c04-hessian-order-forward', props=['C04'], file=FD,
+         old="        return dict(backward=1, forward=1).get(self.method, 2)\n\n    @order.setter", new="        return dict(backward=2, forward=1).get(self.method, 2)\n\n    @order.setter"),
+]
